@@ -123,6 +123,7 @@ def eval_spec(st, src, env, old_heap=None, old_locals=None):
 
 
 def spec_bool(st, src, env, **kw):
+    st.spec_src = src if isinstance(src, str) else '?'
     v = eval_spec(st, src, env, **kw)
     return truthy(st, v)
 
@@ -130,7 +131,7 @@ def spec_bool(st, src, env, **kw):
 # --------------------------------------------------------------- raising
 def raise_exc(st, cls, **fields):
     if st.spec:
-        raise Undecided('exception %s raised inside a specification' % cls)
+        raise Undecided('exception %s raised inside a specification (%s)' % (cls, getattr(st, 'spec_src', '?')))
     ref = st.new_ref(cls) if cls in R.CLASSES else st.new_ref('OtherException')
     for f, v in fields.items():
         st.write_field(ref, cls, f, v)
@@ -194,6 +195,8 @@ def ev_attribute(st, n):
         g = B.lookup_module_attr(st, n.value.id, n.attr)
         if g is not None:
             return g
+    if isinstance(n.value, ast.Name) and n.value.id == 'dict' and n.attr == 'fromkeys' and 'dict' not in st.locals:
+        return Val(T.FN, FnV('specfun', 'dict_fromkeys'))
     if isinstance(n.value, ast.Attribute) and isinstance(n.value.value, ast.Name) \
             and n.value.value.id not in st.locals:
         # function of a sub-module under contract, e.g. os.path.exists
@@ -432,6 +435,32 @@ def ev_lambda(st, n):
 
 
 def ev_listcomp(st, n):
+    cid = getattr(n, '_comp_ordinal', None)
+    key = 'c%s' % cid
+    if cid is not None and not st.spec and st.contract is not None and key in st.contract.loops \
+            and len(n.generators) == 1 and not n.generators[0].ifs:
+        # a comprehension whose element expression has effects: executed as the loop it abbreviates,
+        #     _lc<n> = [];  for <target> in <iter>: _lc<n>.append(<elt>)
+        # cut at the invariant given under loops={'c<n>': ...}; the result list is the local `_lc<n>`
+        name = '_lc%s' % cid
+        g = n.generators[0]
+        et = st.contract.locals.get(name)
+        if et is None or et.kind != 'list':
+            raise Undecided('effectful comprehension %s needs locals={%r: "List[...]"}' % (key, name))
+        st.locals[name] = B.new_list(st, [], et=et.args[0])
+        loop = getattr(n, '_as_loop', None)
+        if loop is None:
+            body = ast.Expr(value=ast.Call(func=ast.Attribute(value=ast.Name(id=name, ctx=ast.Load()), attr='append',
+                                                               ctx=ast.Load()), args=[n.elt], keywords=[]))
+            loop = ast.For(target=g.target, iter=g.iter, body=[body], orelse=[], type_comment=None)
+            ast.copy_location(loop, n)
+            ast.copy_location(body, n)
+            ast.fix_missing_locations(loop)
+            loop._ordinal = key
+            n._as_loop = loop
+        from . import loops
+        loops.exec_for(st, loop)
+        return st.locals[name]
     return B.list_comprehension(st, n)
 
 
